@@ -32,11 +32,75 @@ Section Theorems.
   Proof. intros H. apply (@i_ref D R refs Dinv c H). Qed.
 
   (* C05: a lookup never reads a partially written file: when it opens the file of the row it selected
-     the file is complete (hit) or gone (miss: the one tolerated anomaly) *)
-  Theorem no_partial_read c i f h m :
-    Inv c -> c_pc (cl c i) = ReadOpen f h m -> files c f = FDone \/ files c f = FNone.
+     the file is complete (hit) or gone (the value was replaced or removed meanwhile: the lookup looks the row
+     up again, see lookup_looks_again) *)
+  Theorem no_partial_read c i r mo f h m :
+    Inv c -> c_pc (cl c i) = ReadOpen r mo f h m -> files c f = FDone \/ files c f = FNone.
   Proof.
-    intros H E. destruct (@i_readopen D R refs Dinv c H i f h m E) as [_ N]. destruct (files c f); auto. contradiction.
+    intros H E. pose proof (@i_read D R refs Dinv c H i) as Rd. rewrite E in Rd. cbn in Rd.
+    destruct Rd as [_ [_ [N _]]]. destruct (files c f); auto. contradiction.
+  Qed.
+
+  (* C05 / C12: a lookup (of the repaired kind, r_again = true) whose file is gone never reports a miss at that
+     point: it looks the row up again.  The exit "the same file is missing twice" is never taken in a reachable
+     configuration (file names are not reused: the file that was missing is not the file of a committed row any
+     more); it is there for a value file that was lost behind the cache's back, which no schedule of the machine
+     produces. *)
+  Theorem lookup_looks_again c i r mo f h m :
+    Inv c -> c_pc (cl c i) = ReadOpen r mo f h m -> r_again r = true -> files c f <> FDone ->
+    exists c', cstep c i = Some c' /\ c_pc (cl c' i) = ReadAgain r f /\ db c' = db c /\ lock c' = lock c /\
+               c_done (cl c' i) = c_done (cl c i).
+  Proof.
+    intros H E Ra Nf. pose proof (@i_read D R refs Dinv c H i) as Rd. rewrite E in Rd. cbn in Rd.
+    destruct Rd as [_ [_ [_ [Sf _]]]]. unfold cstep. rewrite E, Ra, Sf.
+    destruct (files c f); try contradiction; (eexists; split; [reflexivity|]; cbn; rewrite upd_cl_same; cbn; auto).
+  Qed.
+
+  (* ... whereas the reader the code had before (r_again = false) reported the miss *)
+  Theorem old_lookup_reports_missing_file (c : config) i r mo f h m :
+    c_pc (cl c i) = ReadOpen r mo f h m -> r_again r = false -> files c f <> FDone ->
+    exists c', cstep c i = Some c' /\ c_pc (cl c' i) = Idle /\ c_done (cl c' i) = c_done (cl c i) ++ [ORes m].
+  Proof.
+    intros E Ra Nf. unfold cstep. rewrite E, Ra.
+    destruct (files c f); try contradiction; (eexists; split; [reflexivity|]; cbn; rewrite upd_cl_same; cbn; auto).
+  Qed.
+
+  (* the steps of a lookup *)
+  Definition reading (c : config) (i : nat) (r : rop D R) : Prop :=
+    (c_pc (cl c i) = Idle /\ exists rest, c_todo (cl c i) = ORead r :: rest) \/
+    (exists mo f h m, c_pc (cl c i) = ReadOpen r mo f h m) \/ (exists g, c_pc (cl c i) = ReadAgain r g).
+
+  (* C05 / C12: every answer of a repaired lookup is justified at the step that produces it: it is what a SELECT on
+     the CURRENT committed state yields (a miss only when that state has no row for the key), or the value of a
+     complete file named by the row the lookup selected.  The lookup therefore never answers from a state the
+     database was never in. *)
+  Theorem lookup_answer_justified c i r c' o :
+    Inv c -> reading c i r -> r_again r = true -> cstep c i = Some c' -> c_done (cl c' i) = c_done (cl c i) ++ [o] ->
+    (exists res, o = ORes res /\ (r_select r (db c) = SelMiss res \/ r_select r (db c) = SelHit res)) \/
+    (exists mo f h m, c_pc (cl c i) = ReadOpen r mo f h m /\ files c f = FDone /\ o = ORes h).
+  Proof.
+    intros H Rd Ra S Dn.
+    assert (Nil : forall l : list (outcome R), l <> l ++ [o]).
+    { intros l X. apply (f_equal (@length _)) in X. rewrite app_length in X. cbn in X. lia. }
+    assert (One : forall (l : list (outcome R)) a, l ++ [a] = l ++ [o] -> a = o).
+    { intros l a X. apply app_inv_head in X. inversion X. reflexivity. }
+    destruct Rd as [[E [rest Et]]|[[mo [f [h [m E]]]]|[g E]]]; unfold cstep in S; rewrite E in S.
+    - rewrite Et in S. inversion S; subst c'; clear S. unfold after_select in Dn. left.
+      destruct (r_select r (db c)) as [res|res|f h m]; cbn in Dn; rewrite upd_cl_same in Dn; cbn in Dn.
+      + exists res. split; [symmetry; eapply One; exact Dn|auto].
+      + exists res. split; [symmetry; eapply One; exact Dn|auto].
+      + exfalso. eapply Nil; exact Dn.
+    - destruct (files c f) eqn:Ff.
+      + exfalso. destruct (lookup_looks_again c i r mo f h m H E Ra) as [c2 [S2 [_ [_ [_ D2]]]]]; [rewrite Ff; discriminate|].
+        unfold cstep in S2. rewrite E, Ff in S2. rewrite S2 in S. inversion S; subst c'. rewrite D2 in Dn. eapply Nil; exact Dn.
+      + exfalso. destruct (no_partial_read c i r mo f h m H E) as [X|X]; rewrite Ff in X; discriminate.
+      + inversion S; subst c'; clear S. cbn in Dn. rewrite upd_cl_same in Dn. cbn in Dn.
+        right. exists mo, f, h, m. repeat split; auto. symmetry. eapply One; exact Dn.
+    - inversion S; subst c'; clear S. unfold after_select in Dn. left.
+      destruct (r_select r (db c)) as [res|res|f h m]; cbn in Dn; rewrite upd_cl_same in Dn; cbn in Dn.
+      + exists res. split; [symmetry; eapply One; exact Dn|auto].
+      + exists res. split; [symmetry; eapply One; exact Dn|auto].
+      + exfalso. eapply Nil; exact Dn.
   Qed.
 
   (* C05: a COMMIT installs exactly the body applied to the CURRENT committed state (nothing happened to
@@ -56,11 +120,11 @@ Section Theorems.
     Inv c -> cstep c i = Some c' -> db c' <> db c ->
     exists w f o, c_pc (cl c i) = AtCommit w f o /\ bo_ok o = true /\ holds c i = true.
   Proof.
-    intros H S N. unfold cstep in S. destruct (c_pc (cl c i)) as [|w f|w f|w f|w f o l|w f o|l fe res|f r|f res|f|f hh m|] eqn:E;
+    intros H S N. unfold cstep in S. destruct (c_pc (cl c i)) as [|w f|w f|w f|w f o l|w f o|l fe res|f r|f res|f|r mo f hh m|r mo|] eqn:E;
       try discriminate.
     - destruct (c_todo (cl c i)) as [|[w|r] rest]; [discriminate| |].
       + destruct (w_store w); inversion S; subst; contradiction.
-      + destruct (r_select r (db c)); inversion S; subst; contradiction.
+      + inversion S; subst. unfold after_select in N. destruct (r_select r (db c)); contradiction.
     - inversion S; subst; contradiction.
     - destruct (lock c) as [[j wk]|]; [destruct (w_retry w)|]; inversion S; subst; contradiction.
     - destruct (lock c) as [[j wk]|]; inversion S; subst; contradiction.
@@ -73,7 +137,9 @@ Section Theorems.
     - inversion S; subst; contradiction.
     - inversion S; subst; contradiction.
     - destruct f; inversion S; subst; contradiction.
-    - inversion S; subst; contradiction.
+    - destruct (files c f); [destruct (r_again r && negb (same_file mo f))|destruct (r_again r && negb (same_file mo f))|];
+        inversion S; subst; contradiction.
+    - inversion S; subst. unfold after_select in N. destruct (r_select r (db c)); contradiction.
   Qed.
 
   (* C06: a transaction that rolls back leaves the committed state exactly as it was *)
@@ -151,8 +217,9 @@ Section Theorems.
   Theorem reads_unblocked (c : config) i r rest :
     c_pc (cl c i) = Idle -> c_todo (cl c i) = ORead r :: rest -> exists c', cstep c i = Some c' /\ db c' = db c /\ lock c' = lock c.
   Proof.
-    intros E Et. unfold cstep. rewrite E, Et. destruct (r_select r (db c)); eexists; repeat split.
+    intros E Et. unfold cstep. rewrite E, Et. unfold after_select. destruct (r_select r (db c)); eexists; repeat split.
   Qed.
 End Theorems.
 
 Arguments reachable {D R}.
+Arguments reading {D R}.
